@@ -451,7 +451,7 @@ pub fn property() -> Property {
             Box::new(Sub {
                 name: "quantizer",
                 rule: "the sixteen 8-bit types x channel LLRs drawn from: uniform f64 bit patterns, NaN, +-inf, +-0, every k/16 for |k| <= 2100 and its two neighbours, +-127/8 +- 1e-9, uniform +-20; oracle: never -128 / never a panic (overflow checks on), for finite input exactly round(8*llr) saturated to +-127 (either neighbour accepted at exact .5 ties); non-trivial = finite input inside the unsaturated range; inner = (type, value) evaluations",
-                cases: |t| t.pick(100_000, 5_000_000),
+                cases: |t| t.pick(1_000_000, 50_000_000),
                 strategy: |_| llr_any_bits().prop_map(Fx).boxed(),
                 check: check_quantizer,
                 health: &[("quantizer-saturated", 0.10), ("quantizer-tie", 0.02)],
@@ -466,7 +466,7 @@ pub fn property() -> Property {
             Box::new(Sub {
                 name: "i8-rules",
                 rule: "the sixteen 8-bit types: (a) variable rule with degree 1..=200 (weighted 1 / 2-8 / 9-40 / 41-200), incoming messages in [-127,127] (uniform, all +127, all -127, mixed +-127, small), channel value incl. +-116/117/127, against exact i64 arithmetic with Jones clipping and degree-one clipping applied exactly where the type name says; (b) layered primitive on rows of degree 2..=12 whose variable LLRs are built as channel + sum of 1..=200 messages (reachable envelope by construction), against the type's own flooding check rule on the clipped extrinsics + add, other variables untouched; exact equality; non-trivial = a saturation/clipping branch taken (|total| > 127, degree-one clip, |extrinsic| > 127)",
-                cases: |t| t.pick(40_000, 2_000_000),
+                cases: |t| t.pick(300_000, 10_000_000),
                 strategy: i8_strategy,
                 check: check_i8,
                 health: &[("total-beyond-127", 0.20), ("degree-one-clip-taken", 0.02), ("extrinsic-beyond-127", 0.10)],
@@ -474,7 +474,7 @@ pub fn property() -> Property {
             Box::new(Sub {
                 name: "float-rules",
                 rule: "the eight float types: variable rule (degree 1..=200, finite values up to +-200) within 16*eps*(d+1)*sum|terms| of the f64 sums; layered primitive on rows of degree 2..=12 equals the flooding check rule on the extrinsic values + add within 16*eps*scale; non-trivial = degree >= 2",
-                cases: |t| t.pick(40_000, 2_000_000),
+                cases: |t| t.pick(300_000, 10_000_000),
                 strategy: f_strategy,
                 check: check_f,
                 health: &[],
